@@ -619,6 +619,13 @@ func c03World(r *rand.Rand, exact bool) *World {
 	w := &World{Exact: exact, Layout: "2006/01/02"}
 	w.Recipes, w.Basics, w.Unknown = names[:nrec], names[nrec:nrec+nbas], names[nrec+nbas:]
 	w.Book = gen.RandomBook(r, gen.BookOpts{Recipes: nrec, Basics: nbas, MaxDepth: 1 + r.Intn(3), Exact: exact, RecipeNames: w.Recipes, BasicNames: w.Basics, Wide: wide})
+	if r.Intn(4) == 0 && len(w.Book) >= 1 {
+		// a heading whose name begins with the comment character (in quotes): a recipe nothing can refer to; its
+		// elements are its own and nobody else's
+		hash := gen.Recipe{Name: "#1 combo", Ents: []gen.Ent{{Name: w.Basics[0], Val: gen.N("180")}, {Name: w.Basics[len(w.Basics)-1], Val: gen.N("75")}}}
+		at := 1 + r.Intn(len(w.Book))
+		w.Book = append(w.Book[:at:at], append(gen.Book{hash}, w.Book[at:]...)...)
+	}
 	w.Log = gen.RandomLog(r, gen.LogOpts{Days: 1 + r.Intn(4), Foods: names, Exact: exact, EmptyDays: true})
 	w.Res = model.Resolve(w.Book)
 	w.Abs = model.AbsPaths(w.Book)
